@@ -13,8 +13,18 @@ for some `0 ≤ t ≤ 1`.
 What is and is not proved. T1 and T2 hold for every segment. Minimality (T3, T4) is proved for
 **non-vertical** segments only: for a vertical segment the code (as it is, pinned by
 `test_geometry.py::testProjSegment`) returns the nearest END point or raises — see `vertical_as_coded`
-and the counter-examples at the end, which are evaluated on the model. IEEE rounding is outside these
-statements (the horizontal-segment defect D17 exists only in floating point). -/
+and the counter-examples, which are evaluated on the model. For every non-vertical orientation the statement
+is proved at the strength of the property: `proj_segment_nearest_partial` (one segment: point on it, distance
+to it, minimal), `proj_segment_horizontal` (closed form for horizontal segments), `proj_polyline_vertices` and
+`proj_polyline_nearest_partial` (polyline: index of the carrying segment, point on it, distance to it, minimal
+over every point of every segment, the skipped zero-length segments included). IEEE rounding is outside these
+statements (the horizontal-segment defect D17 and its near-vertical counterpart exist only in floating point).
+
+Front ends (second half of the file): the argument forms of `proj_segment` / `proj_polyligne` (lists vs numpy
+arrays, two sequences of unequal lengths), `Track.getX()/getY()` on 3D positions, `__projOnTrack` and both
+branches of `mapOnTrack` are in the model; `projOnTrack3_planimetric` says that the projection is planimetric
+(no altitude is read, the returned point has third coordinate 0), so that every theorem about `projPolyligne`
+applies to `mapOnTrack` on 3D data through `mapOnTrack3_coord` / `mapOnTrack3_track`. -/
 namespace TV.C20
 open TV.Proj
 variable {α : Type} [Field α] [LinearOrder α] [IsStrictOrderedRing α]
